@@ -67,6 +67,9 @@ pub struct RunStats {
     pub blocked_handoffs: u64,
     #[serde(default)]
     pub clock_jumps: u64,
+    /// caller threads that ran restricted to 1-3 CPUs
+    #[serde(default)]
+    pub cpu_limited_threads: u64,
     /// steps at which a disk fault was due / what was actually applied (nothing while the
     /// library leaves no file behind)
     #[serde(default)]
@@ -626,6 +629,30 @@ extern "C" {
     fn syscall(num: i64, ...) -> i64;
 }
 
+extern "C" {
+    fn sched_getaffinity(pid: i32, size: usize, mask: *mut u64) -> i32;
+    fn sched_setaffinity(pid: i32, size: usize, mask: *const u64) -> i32;
+}
+
+/// Restrict the calling thread to `n` of the CPUs it may use now (which ones depends on the
+/// thread's index only). Returns whether the restriction is in place.
+fn limit_cpus(me: usize, n: u8) -> bool {
+    let mut cur = [0u64; 16];
+    if unsafe { sched_getaffinity(0, 128, cur.as_mut_ptr()) } != 0 {
+        return false;
+    }
+    let allowed: Vec<usize> = (0..1024).filter(|i| cur[i / 64] >> (i % 64) & 1 == 1).collect();
+    if allowed.len() <= n as usize {
+        return false;
+    }
+    let mut new = [0u64; 16];
+    for k in 0..n as usize {
+        let c = allowed[(me * 5 + k * 3) % allowed.len()];
+        new[c / 64] |= 1 << (c % 64);
+    }
+    unsafe { sched_setaffinity(0, 128, new.as_ptr()) == 0 }
+}
+
 /// Is kernel thread `tid` of this process sleeping (state S or D in /proc)? Used by the watchdog
 /// only; never enters a result or a recorded decision.
 fn thread_sleeps(tid: i64) -> bool {
@@ -647,6 +674,9 @@ fn sim_thread_inner(sh: Arc<Shared>, me: usize) {
         sh.st.lock().unwrap_or_else(|e| e.into_inner()).th[me].tid = tid;
     }
     CTX.with(|c| *c.borrow_mut() = Some((sh.clone(), me)));
+    if sh.scen.threads[me].cpus > 0 && limit_cpus(me, sh.scen.threads[me].cpus) {
+        sh.st.lock().unwrap_or_else(|e| e.into_inner()).stats.cpu_limited_threads += 1;
+    }
     a5::verif::set_hash_key(sh.scen.threads[me].hash_key);
     a5::verif::set_yield_hook(Some(yield_hook));
     let has_exit_ops = !sh.scen.threads[me].exit_ops.is_empty();
